@@ -418,11 +418,11 @@ class Exec:
             if isinstance(a, BV_):
                 return BV_((not a.t) if a.conc() else z3.Not(a.t))
             raise Unsupported("unop " + s)
-        m = re.match(r"^([\w:<>, &\[\]]+?) \{ (.*) \}$", s)
-        if m and ": " in m.group(2):
-            name = re.sub(r"::<.*$", "", m.group(1)).split("::")[-1]
+        ms = re.match(r"^([\w:<>, &\[\]]+?) \{ (.*) \}$", s)
+        if ms and ": " in ms.group(2):
+            name = re.sub(r"::<.*$", "", ms.group(1)).split("::")[-1]
             fields = []
-            for part in split_top(m.group(2)):
+            for part in split_top(ms.group(2)):
                 k, v = part.split(": ", 1)
                 fields.append(self.operand(fr, v, path))
             return Agg(name, fields)
